@@ -2,6 +2,7 @@ import Np.Proofs.Call
 import Np.Model.CallArr
 import Mathlib.Algebra.MvPolynomial.Monad
 import Np.Proofs.CallArr
+import Np.Proofs.CallTop
 /-! C02 — evaluation and substitution compute the polynomial's value: property theorems -/
 namespace Np.Props.C02
 open MvPolynomial
@@ -57,6 +58,59 @@ theorem call_binds (names : List Name) (args : List (Option α)) (kwargs : List 
   rw [if_neg (by rw [h1]; simp), if_neg (by rw [h2]; simp)]
   rfl
 end bind
+
+/-! ### the complete call `poly(*args, **kwargs)` of the model (`callArr`: what the driver runs) — Np/Proofs/CallTop.lean.
+`CallOK`: the polynomial array and every bound operand are well-formed, no zero-length axes. `callSubst ashape j names
+params` sends indeterminate number `t` to element `j` (broadcast) of the `t`-th bound operand, or keeps it. -/
+section top
+open Shape
+variable {R : Type} [CommRing R] [BEq R] [LawfulBEq R]
+
+/-- **outcomes**: `ValueError` iff the argument shapes do not broadcast among themselves — the only possible error
+(the model's `.internal` and `.uninit` are unreachable); otherwise a plain array or a polynomial array of shape
+`poly.shape + broadcast(argument shapes)` -/
+theorem call_outcomes (rc rn : Bool) (p : Arr R) (params : List (Option (Arr R))) (ok : CallOK p params) :
+    ((argShape p params = none ∧ callArr rc rn p params = .error .valueError) ∨
+     (∃ ashape, argShape p params = some ashape ∧
+      ((∃ vals, callArr rc rn p params = .array (p.shape ++ ashape) vals) ∨
+       (∃ r, callArr rc rn p params = .poly r ∧ r.shape = p.shape ++ ashape)))) ∧
+    ∀ e, callArr rc rn p params = .error e ↔ e = .valueError ∧ argShape p params = none :=
+  ⟨callArr_cases rc rn p params ok, fun e => callArr_error_iff rc rn p params ok e⟩
+
+/-- **full evaluation**: a plain-array result holds, at position `(i, j)`, exactly the value of the substituted
+element `i` — and the plain-array branch is taken exactly when every substituted element is a constant -/
+theorem call_returns_values (rc rn : Bool) (p : Arr R) (params : List (Option (Arr R))) (ok : CallOK p params)
+    {shape : List Nat} {vals : List R} (h : callArr rc rn p params = .array shape vals) :
+    ∃ ashape, argShape p params = some ashape ∧ shape = p.shape ++ ashape ∧ vals.length = size shape ∧
+      ∀ (i : Fin (size p.shape)) (j : Fin (size ashape)) (hk : i.val * size ashape + j.val < vals.length),
+        bind₁ (callSubst ashape j.val p.poly.names params) (p.elem i) = C (vals[i.val * size ashape + j.val]) :=
+  callArr_array_spec rc rn p params ok h
+theorem call_array_iff_constant (rc rn : Bool) (p : Arr R) (params : List (Option (Arr R))) (ok : CallOK p params)
+    {ashape : List Nat} (hs : argShape p params = some ashape) :
+    (∃ shape vals, callArr rc rn p params = .array shape vals) ↔
+      ∀ (i : Fin (size p.shape)) (j : Fin (size ashape)),
+        ∃ c, bind₁ (callSubst ashape j.val p.poly.names params) (p.elem i) = C c :=
+  callArr_array_iff rc rn p params ok hs
+
+/-- **partial evaluation / substitution**: a polynomial result is well-formed and position `(i, j)` is the `bind₁`
+substitution into element `i` (unbound indeterminates stay) -/
+theorem call_returns_substitution (rc rn : Bool) (p : Arr R) (params : List (Option (Arr R))) (ok : CallOK p params)
+    {r : Arr R} (h : callArr rc rn p params = .poly r) :
+    r.WF ∧ ∃ ashape, argShape p params = some ashape ∧ r.shape = p.shape ++ ashape ∧
+      ∀ (i : Fin (size p.shape)) (j : Fin (size ashape)) (k : Fin (size r.shape)),
+        k.val = i.val * size ashape + j.val →
+        r.elem k = bind₁ (callSubst ashape j.val p.poly.names params) (p.elem i) :=
+  callArr_poly_spec rc rn p params ok h
+
+/-- what the substitution does to each indeterminate of the polynomial -/
+theorem call_substitution_pointwise (ashape : List Nat) (j : Nat) (ns : List Name) (params : List (Option (Arr R)))
+    (t : Nat) (ht : t < ns.length) (hn : ns.Nodup) :
+    callSubst ashape j ns params ns[t] =
+      match params.getD t none with
+      | some b => elemAt b (bindex b.shape ashape j)
+      | none => X ns[t] :=
+  callSubst_getElem ashape j ns params t ht hn
+end top
 
 /-- non-vacuity: (q0²q1 + 3)(q0=2, q1=-1) = -1 -/
 example : evalTerms (fun n => if n = 0 then (2 : Int) else -1) [0, 1] [([2, 1], 1), ([0, 0], 3)] = -1 := by decide
